@@ -264,6 +264,15 @@ func (a *Agent) applyHostRewriteForUDPMux(candidateIPs []net.IP, udpAddr *net.UD
 
 // gatherCandidatesInternal performs the actual candidate gathering for all configured types.
 func (a *Agent) gatherCandidatesInternal(ctx context.Context) {
+	// The URLs can be replaced at runtime (UpdateOptions(WithUrls)), which happens on
+	// the agent loop: read them there, once per cycle, instead of from the gatherers.
+	var urls []*stun.URI
+	if err := a.loop.Run(a.loop, func(context.Context) {
+		urls = a.urls
+	}); err != nil {
+		return
+	}
+
 	var wg sync.WaitGroup
 	for _, t := range a.candidateTypes {
 		switch t {
@@ -274,11 +283,11 @@ func (a *Agent) gatherCandidatesInternal(ctx context.Context) {
 				wg.Done()
 			}()
 		case CandidateTypeServerReflexive:
-			a.gatherServerReflexiveCandidates(ctx, &wg)
+			a.gatherServerReflexiveCandidates(ctx, &wg, urls)
 		case CandidateTypeRelay:
 			wg.Add(1)
 			go func() {
-				a.gatherCandidatesRelay(ctx, a.urls)
+				a.gatherCandidatesRelay(ctx, urls)
 				wg.Done()
 			}()
 		case CandidateTypePeerReflexive, CandidateTypeUnspecified:
@@ -289,15 +298,15 @@ func (a *Agent) gatherCandidatesInternal(ctx context.Context) {
 	wg.Wait()
 }
 
-func (a *Agent) gatherServerReflexiveCandidates(ctx context.Context, wg *sync.WaitGroup) {
+func (a *Agent) gatherServerReflexiveCandidates(ctx context.Context, wg *sync.WaitGroup, urls []*stun.URI) {
 	replaceSrflx := a.addressRewriteMapper != nil && a.addressRewriteMapper.shouldReplace(CandidateTypeServerReflexive)
 	if !replaceSrflx {
 		wg.Add(1)
 		go func() {
 			if a.udpMuxSrflx != nil {
-				a.gatherCandidatesSrflxUDPMux(ctx, a.urls, a.networkTypes)
+				a.gatherCandidatesSrflxUDPMux(ctx, urls, a.networkTypes)
 			} else {
-				a.gatherCandidatesSrflx(ctx, a.urls, a.networkTypes)
+				a.gatherCandidatesSrflx(ctx, urls, a.networkTypes)
 			}
 			wg.Done()
 		}()
